@@ -61,7 +61,14 @@ static inline int y_memcmp_loop(const void* a, const void* b, uint64_t n)
 #else
 #define Y_MEMCMP(a, b, n) y_memcmp16((a), (b), (n))
 #endif
+/* skeleton units (-DY_SKELETON_BYTES): the bytes copied out of key strings are irrelevant to the clause being proved; the
+ * destination receives ARBITRARY bytes (sound over-approximation of every key content; only key-slice copies, n <= 8, occur) */
+#ifdef Y_SKELETON_BYTES
+static inline void* y_memcpy_skel(void* d, uint64_t n) { __CPROVER_assert(n <= 8, "skeleton memcpy: key-slice copy"); if (n > 0) __CPROVER_havoc_slice(d, n); return d; }
+#define Y_MEMCPY(d, s, n) y_memcpy_skel((d), (n))
+#else
 #define Y_MEMCPY(d, s, n) memcpy((d), (s), (n))
+#endif
 #define Y_MEMMOVE(d, s, n) memmove((d), (s), (n))
 
 /* std::string_view */
